@@ -41,6 +41,9 @@ Proof.
   cbn [length]. lia.
 Qed.
 
+Lemma some_inj {A} (a b : A) : Some a = Some b -> a = b.
+Proof. congruence. Qed.
+
 Section Fuel.
 Variable cont : Type.
 Variable pc_write : cont -> list N.
@@ -58,8 +61,7 @@ Lemma wire_fuel_bound (c : chunk cont) img : Forall bent_ok (c_bes c) ->
   chunk_write cont pc_write c = Some img -> wire_fuel cont c <= length img + fuel_slack.
 Proof.
   intros Hb Hw. unfold chunk_write in Hw. destruct (4096 <? lenN (c_secs c))%N; [discriminate|].
-  injection Hw as Hw. subst img. unfold wire_fuel, fuel_slack.
-  idtac.
+  apply some_inj in Hw. subst img. unfold wire_fuel, fuel_slack. rewrite !app_length.
   pose proof (hm_write_length (raw_of (hMB (c_hm c))) (raw_of (hWS (c_hm c)))).
   pose proof (data_length (c_secs c)). pose proof (bes_length (c_bes c) Hb).
   assert (length (chunk_data cont pc_write c) <= length (fst (wr TByteArray (VBytes (chunk_data cont pc_write c) [])))).
@@ -70,3 +72,38 @@ Proof.
   unfold chunk_data in *. lia.
 Qed.
 End Fuel.
+
+(* the network-form theorem with the fuel premise in terms of the input: |input| + fuel_slack suffices *)
+Section WireInput.
+Variable cont : Type.
+Variable pc_write : cont -> list N.
+Variable pc_read : bool -> cont -> dec (cont * N).
+Variable X : Type.
+Variable pc_abs : cont -> X.
+Variable pc_good : cont -> Prop.
+Variable pc_compat : cont -> cont -> Prop.
+Hypothesis pc_robust : forall b d, robust (pc_read b d).
+Hypothesis pc_rt : forall b c d rest, pc_good c -> pc_compat c d ->
+  exists c' n, run_flat (pc_read b d) (pc_write c ++ rest) = FOk (c', n) rest /\ pc_abs c' = pc_abs c.
+
+Theorem wire_roundtrip_input (c d : chunk cont) : chunk_ok cont pc_write pc_good pc_compat c d ->
+  exists img, chunk_write cont pc_write c = Some img /\
+  forall rest fuel, length (img ++ rest) + fuel_slack <= fuel ->
+  exists c', run_flat (chunk_read cont pc_read fuel d) (img ++ rest) = FOk (c', lenN img) rest /\
+    Forall3 (sec_rel cont X pc_abs) (c_secs c) (c_secs d) (c_secs c') /\
+    hMB (c_hm c') = hMB (c_hm c) /\ hWS (c_hm c') = hWS (c_hm c) /\
+    hWSWG (c_hm c') = hWSWG (c_hm d) /\ hOFWG (c_hm c') = hOFWG (c_hm d) /\
+    hOF (c_hm c') = hOF (c_hm d) /\ hMBNL (c_hm c') = hMBNL (c_hm d) /\
+    c_bes c' = c_bes c /\ c_status c' = c_status d.
+Proof.
+  intros Hok.
+  destruct (wire_roundtrip cont pc_write pc_read X pc_abs pc_good pc_compat pc_robust pc_rt c d
+              (wire_fuel cont c) [] Hok (le_n _)) as (img & c0 & Hw & _).
+  exists img. split; [exact Hw|]. intros rest fuel Hf.
+  assert (Hb: Forall bent_ok (c_bes c)) by apply Hok.
+  pose proof (wire_fuel_bound cont pc_write c img Hb Hw) as B. rewrite app_length in Hf.
+  destruct (wire_roundtrip cont pc_write pc_read X pc_abs pc_good pc_compat pc_robust pc_rt c d
+              fuel rest Hok ltac:(lia)) as (img' & c' & Hw' & R).
+  rewrite Hw in Hw'. apply some_inj in Hw'. subst img'. exists c'. exact R.
+Qed.
+End WireInput.
